@@ -18,6 +18,10 @@ for f in r["funcs"]:
             continue
         for p in o.get("props") or []:
             if p in lock:
+                # obligations of an inlined callee carry the callee contract's properties; they are only generated in a
+                # run for property p if the enclosing function's own contract serves p
+                if ">" in o["name"] and p not in (f.get("props") or []):
+                    continue
                 lock[p].append("govc/%s/%s" % (key, o["name"]))
 aout = tempfile.mktemp(suffix=".json")
 resid = {}
